@@ -44,6 +44,8 @@ let run (t : string list) : string =
       let all_dr = ref [] in
       let boks = ref [] in
       let round_ix = ref [] in
+      let walorder = ref [] in
+      let allow_full = ref false in  (* a crash between a filling write and its rotation leaves a full file that the restarted writer resumes *)    (* conformance to the hypotheses of the C01 lockstep theorems *)
       let used = ref [] in        (* segment labels that existed earlier in this process lifetime *)
       let stale = ref [] in       (* labels re-created in the same lifetime: label-keyed caches may be stale *)
       let note_dirs () = Stdlib.List.iter (fun d -> if not (Stdlib.List.mem d.sid !used) then used := d.sid :: !used) !s.dirs in
@@ -53,7 +55,7 @@ let run (t : string list) : string =
         if op = "O" then begin
           let stale_rows = Stdlib.List.concat (Stdlib.List.map (fun d -> if Stdlib.List.mem d.sid !stale then d.srows else []) !s.dirs) in
           let incomplete = Stdlib.List.filter (fun d -> d.srows = [] && Stdlib.List.mem d.sid !s.live) !s.dirs in
-          outs := (observe !s (int_of_string nuids) (int_of_string nctx) ^ ";incomplete=" ^ ns (Stdlib.List.map (fun d -> d.sid) incomplete) ^ ";stalerows=" ^ ks stale_rows ^ ";bok=" ^ Stdlib.String.concat "," (Stdlib.List.rev !boks)
+          outs := (observe !s (int_of_string nuids) (int_of_string nctx) ^ ";walorder=" ^ Stdlib.String.concat "," !walorder ^ ";incomplete=" ^ ns (Stdlib.List.map (fun d -> d.sid) incomplete) ^ ";stalerows=" ^ ks stale_rows ^ ";bok=" ^ Stdlib.String.concat "," (Stdlib.List.rev !boks)
                    ^ ";index=" ^ Stdlib.String.concat "," (Stdlib.List.map (fun (i, us) -> string_of_n i ^ ":" ^ Stdlib.String.concat "+" (Stdlib.List.map string_of_n us)) !s.index)) :: !outs;
           boks := []
         end
@@ -92,12 +94,18 @@ let run (t : string list) : string =
           | _ -> failwith "bad S"
         end else
           let () = if op = "T" then begin used := []; stale := [] end else note_dirs () in
+          (* the WAL thread rotates right after the write that fills a file: a write while
+             entries_written >= cap, or a rotation while entries_written < cap, contradicts the model *)
+          let () = if op = "W" && !s.walq <> [] && BinNat.N.leb !s.cap !s.wcnt && not !allow_full then walorder := "write-when-full" :: !walorder in
+          let () = if op = "Wr" then allow_full := false in
+          let () = if op = "Wr" && not (BinNat.N.leb !s.cap !s.wcnt) then walorder := "rotate-when-not-full" :: !walorder in
           let lab = match op with
             | "F" -> LFlushCmd | "W" -> LWalWrite | "Wr" -> LWalRotate | "K" -> LCrash | "T" -> LRestart
             | "fb" -> LFw FwBegin | "fm" -> LFw FwMkdir | "fi" -> LFw FwIndex | "fp" -> LFw FwPublish
             | "fc" -> LFw FwClear | "fx" -> LFw FwWalClean | "fd" -> LFw FwDone
             | _ -> failwith ("bad op " ^ op) in
-          s := step !s lab) ops;
+          s := step !s lab;
+          if op = "T" then allow_full := BinNat.N.leb !s.cap !s.wcnt) ops;
       Stdlib.String.concat " | " (Stdlib.List.rev !outs)
   | _ -> "UNKNOWN_PROBE"
 
